@@ -1253,7 +1253,10 @@ impl World {
         let routed = match ev {
             Some(DatagramEvent::ConnectionEvent(ch, ce)) => match self.eps[ep].by_handle.get(&ch.0).copied() {
                 Some(k) => {
-                    if self.check_routing && !f.corrupted && !f.injected {
+                    // (with connection IDs of 1-3 bytes a value retired by one connection is soon issued to
+                    // another, so a late packet legitimately lands at the new owner, which discards it)
+                    let tiny_cids = (1..4).contains(&self.eps[ep].spec.cid_len);
+                    if self.check_routing && !f.corrupted && !f.injected && !tiny_cids {
                         if let Some(o) = f.origin_conn {
                             // the emitter's peer, if it exists already; a client's handshake packets may
                             // only ever reach the connection created for it
@@ -1263,8 +1266,14 @@ impl World {
                                 None => self.conns[k].peer != Some(o),
                             };
                             if wrong {
+                                // known pattern: the destination ID a stateless Retry told the client to use is
+                                // drawn without looking at (or reserving it in) the routing table, so with short
+                                // IDs the client's next Initial can carry an ID that belongs to a live connection
+                                let rcl = self.eps[ep].spec.cid_len as usize;
+                                let first = self.observe_quiet(&f.bytes, rcl).into_iter().next();
+                                let post_retry = expected.is_none() && first.is_some_and(|p| p.ty == wire::PktType::Initial && p.token_len > 0);
                                 self.viol.push(Viol {
-                                    sig: "c09/misrouted".into(),
+                                    sig: if post_retry { "c09/misrouted/post-retry-initial-collides-with-issued-cid".into() } else { "c09/misrouted".into() },
                                     msg: format!("datagram {} emitted by connection {o} ({:?}, peer {:?}) from {} was handed to connection {k} ({:?}, peer {:?}) by endpoint {ep}", f.dgram_id, self.conns[o].side, expected, f.from, self.conns[k].side, self.conns[k].peer),
                                 });
                             }
